@@ -94,7 +94,7 @@ Fixpoint no_write_into (r lo hi : Z) (t : nat) (tr : list event) : bool :=
   match tr with
   | [] => true
   | e :: rest =>
-      negb ((e_reg e =? r) && is_write_class (cls (e_acc e)) && (e_off e <? hi) && (lo <? e_off e + Z.max (e_len e) 1))
+      negb ((e_reg e =? r) && is_write_class (cls (e_acc e)) && (e_off e <? hi) && (lo <? e_off e + e_len e))
       && no_write_into r lo hi t rest
   end.
 Fixpoint commits_final (tr : list event) : bool :=
